@@ -1209,7 +1209,7 @@ Proof.
                   (nth 1 y_cis x_ci, ac_of (nth 1 y_chunks (0, x_chunk)));
                   (nth 2 y_cis x_ci, ac_of (nth 2 y_chunks (0, x_chunk)));
                   (nth 3 y_cis x_ci, ac_of (nth 3 y_chunks (0, x_chunk))) ]).
-  { repeat constructor; cbn [fst snd].
+  { constructor; [|constructor; [|constructor; [|constructor; [|constructor]]]]; cbn [fst snd].
     - y_chunk 2%nat.
     - y_chunk 4%nat.
     - y_chunk 7%nat.
